@@ -309,6 +309,13 @@ type Graph struct {
 	nodes        []*node
 }
 
+// typeKey is the key under which a type is provided and looked up. An alias and the type it names are
+// one type to the compiler (type Timeout = time.Duration), so they get one key: a requirement spelled
+// with one name is satisfied by a result or struct field declared with the other.
+func typeKey(t types.Type) string {
+	return types.Unalias(t).String()
+}
+
 func NewGraph(metaData *MetaData, build *BuildDirective, varPool *VarPool) (*Graph, error) {
 	graph := &Graph{
 		injectorName: build.InjectorName,
@@ -342,7 +349,7 @@ func NewGraph(metaData *MetaData, build *BuildDirective, varPool *VarPool) (*Gra
 				if t == nil {
 					return nil, fmt.Errorf("provider has nil type at group %d, index %d", groupIndex, typeIndex)
 				}
-				key := t.String()
+				key := typeKey(t)
 
 				if existing, ok := fnProviderMap[key]; ok {
 					// Allow the same provider to provide multiple types (e.g., concrete and interface)
@@ -370,7 +377,7 @@ func NewGraph(metaData *MetaData, build *BuildDirective, varPool *VarPool) (*Gra
 		}
 
 		// Find the provider that provides this struct type
-		structTypeKey := structProvider.StructType.String()
+		structTypeKey := typeKey(structProvider.StructType)
 		if _, ok := fnProviderMap[structTypeKey]; !ok {
 			return nil, fmt.Errorf("no provider for struct type %s", structTypeKey)
 		}
@@ -387,7 +394,7 @@ func NewGraph(metaData *MetaData, build *BuildDirective, varPool *VarPool) (*Gra
 			}
 			declOrder++
 
-			fieldTypeKey := field.Type.String()
+			fieldTypeKey := typeKey(field.Type)
 			if _, ok := fnProviderMap[fieldTypeKey]; ok {
 				return nil, fmt.Errorf("multiple providers provide %s (field %s conflicts with existing provider)", fieldTypeKey, field.Name)
 			}
@@ -404,7 +411,7 @@ func NewGraph(metaData *MetaData, build *BuildDirective, varPool *VarPool) (*Gra
 	if build.Return.Type == nil {
 		return nil, fmt.Errorf("return type is nil")
 	}
-	returnTypeKey := build.Return.Type.String()
+	returnTypeKey := typeKey(build.Return.Type)
 
 	returnProvider, ok := fnProviderMap[returnTypeKey]
 	if !ok {
@@ -452,7 +459,7 @@ func NewGraph(metaData *MetaData, build *BuildDirective, varPool *VarPool) (*Gra
 			if t == nil {
 				return nil, fmt.Errorf("provider has nil required type at index %d", i)
 			}
-			key := t.String()
+			key := typeKey(t)
 			var (
 				n2       *node
 				srcIndex int
